@@ -224,19 +224,33 @@ def rule_R4(ck):
     ck.instance("end-calls", None, fn="metacommands::end")
     if not calls or any(isinstance(p, ast.If) for c in calls for p in [c._parent._parent]):
         ck.violation("metacommands::end", "'.end' does not unconditionally stop the compilation of its file", construct="end stop")
-    # parser: stop at .end outside braces only
-    code = repo.func("parser::code")
-    brk = None
-    for node in walk_local(code):
-        if isinstance(node, ast.If) and any(isinstance(b, ast.Break) for b in node.body) and ".end" in norm_text(node.test):
-            brk = node
-    ck.instance("parser-end", {"test": norm_text(brk.test) if brk else None}, fn="parser::code")
-    if brk is None:
-        ck.violation("parser::code", "the parser no longer stops reading a file at '.end'", construct="parser end")
-    else:
-        t = norm_text(brk.test)
-        if "not break_on_closing_bracket" not in t or ".lower()" not in t or "'end'" not in t:
-            ck.violation(brk, f"the parser's '.end' test is {t!r}: it must apply outside braces only, to 'end' and '.end' in any case", construct="parser end test")
+    # parser: stop at .end outside braces only - decided by running the real statement parser (abstractly) on texts with
+    # junk after the directive
+    from .c05 import run_parser
+    I2 = eager_interp(repo)
+    I2.explore(lambda: I2.module_get("metacommands", "end"))       # the directive registry must be complete
+    def names(block):
+        return [i.fields["name"].fields["name"].lower() if "name" in i.fields and isinstance(i.fields["name"], Rec) else i.cls.name for i in block.fields["insns"]]
+    for text, want, why in (("nop\n.end\n*** junk $$$ (((\n", ["nop", ".end"], "the text after '.end' is not parsed"),
+                            ("nop\nEND\n\"unterminated\n", ["nop", "end"], "'end' without the dot, in any case, ends the file too"),
+                            ("nop\n.End\n", ["nop", ".end"], "'.End' in mixed case"),
+                            ("nop\nhalt\n", ["nop", "halt"], "a file without '.end' is read to its end")):
+        r, pos, errs, raised = run_parser(I2, "code", text)
+        got = names(r) if isinstance(r, Rec) else None
+        ck.instance(("parser-end", text), {"text": text, "statements": got, "errors": errs}, fn="parser::code")
+        if raised or errs or got != want:
+            ck.violation("parser::code", f"parsing {text!r} gives the statements {got} (errors {errs}, raised {raised}), expected {want}: {why}", construct="parser end test")
+    # inside braces the parser reads on (the compiler discards the rest of the block: same file continues after '}')
+    r, pos, errs, raised = run_parser(I2, "code", ".repeat 2 { nop\n.end\nhalt }\nclr r0\n")
+    inner = None
+    if isinstance(r, Rec) and r.fields["insns"]:
+        ops = r.fields["insns"][0].fields.get("operands") or []
+        inner = [names(o) for o in ops if isinstance(o, Rec) and o.cls.name == "CodeBlock"]
+    outer = names(r) if isinstance(r, Rec) else None
+    ck.instance(("parser-end", "braces"), {"outer": outer, "inner": inner, "errors": errs}, fn="parser::code")
+    if raised or errs or outer != [".repeat", "clr"] or inner != [["nop", ".end", "halt"]]:
+        ck.violation("parser::code", f"'.repeat 2 {{ nop / .end / halt }}' / 'clr r0' parses to outer {outer}, body {inner} (errors {errs}, raised {raised}); '.end' inside braces must not stop the parser: "
+                                     "the closing brace and the rest of the file still belong to the program", construct="parser end test")
 
 
 def rule_R5(ck):
@@ -270,7 +284,7 @@ def run(ck):
     ck.run_rule("C16.R4", ".end: single raiser, single handler, bytes so far, parser stop", 4, rule_R4)
     ck.run_rule("C16.R5", "insert_file returns the file's bytes unmodified", 1, rule_R5)
     ck.run_rule("C02.R2", "bytes/address accumulator pairing (linking = concatenation)", 5, c02.rule_R2)
-    ck.run_rule("C02.R6", "address continuation across included and linked files", 4, c02.rule_R6)
+    ck.run_rule("C02.R6", "address continuation across included and linked files", 3, c02.rule_R6)
     ck.run_rule("C02.R7", "linking F1 F2 ... = concatenation at chained addresses", 3, c02.rule_R7)
     from . import c10
     ck.run_rule("G6.tab", "own-file and exported symbol tables fold case alike (a reference resolved across files resolves as it does inside one file)", 10, c10.rule_tables)
